@@ -13,6 +13,17 @@ E2 = "explicit-state search over operation histories of the real objects against
 E3 = "bounded-exhaustive input/configuration enumeration against a reference model (depth-1 model checking)"
 
 CHECKS = {
+    "C10": dict(
+        engine="E3-enum",
+        category="exploration",
+        technique=E3 + ", each case executed through the real Gateway/protocol/dispatcher on the virtual loop",
+        text="All 1152 configurations (known_list subsets x block_list subsets x enforce x active gateway listed/foreign/unknown) x 216 packets over the "
+        "three address shapes with src/dst from listed, unlisted, blocked, listed+blocked, gateway, foreign gateway, placeholder, broadcast and null ids "
+        "(+ ids that only occur in a 000C payload), received by a real Gateway, then 49 commands sent through gwy.async_send_cmd, then the receive pass "
+        "again; the oracle is the statement as a predicate (blocked never passes nor creates a device, enforced list likewise, allowed always passes).",
+        design_ref="4/C10",
+        note="An enforce request with an empty known list is not enforceable (library-defined); 'delivered' = reaches a handler added with add_msg_handler.",
+    ),
     "C17": dict(
         engine="E3-enum + E2-hist",
         category="exploration",
